@@ -316,6 +316,148 @@ theorem lexStr_body (e : Char) (he1 : e ≠ '\\') (its : List StrItem)
     · simp at hden
 
 
+/-! ### the `\xHH` flags (`lexStrHex`) on a well-formed body -/
+
+theorem lexStrHex_delim (e : Char) (cs : List Char) : lexStrHex e (e :: cs) = [] := by
+  (conv => lhs; rw [lexStrHex.eq_def]); simp
+
+theorem lexStrHex_plain (e c : Char) (cs : List Char) (h1 : c ≠ e) (h2 : c ≠ '\\') :
+    lexStrHex e (c :: cs) = false :: lexStrHex e cs := by
+  (conv => lhs; rw [lexStrHex.eq_def]); simp [h1, h2]
+
+theorem lexStrHex_esc (e : Char) (he : e ≠ '\\') (c1 : Char)
+    (hc : c1 = 'n' ∨ c1 = 'r' ∨ c1 = 't' ∨ c1 = '0' ∨ c1 = '\\' ∨ c1 = '\'' ∨ c1 = '"') (cs : List Char) :
+    lexStrHex e ('\\' :: c1 :: cs) = false :: lexStrHex e cs := by
+  have he' : ¬ ('\\' = e) := fun h => he h.symm
+  rcases hc with rfl | rfl | rfl | rfl | rfl | rfl | rfl <;>
+    ((conv => lhs; rw [lexStrHex.eq_def]); simp [he'])
+
+theorem lexStrHex_esc_x (e : Char) (he : e ≠ '\\') (h1 h2 : Char) (d1 d2 : Nat)
+    (hd1 : toDigit h1 16 = some d1) (hd2 : toDigit h2 16 = some d2) (hl1 : d1 < 16) (hl2 : d2 < 16)
+    (cs : List Char) :
+    lexStrHex e ('\\' :: 'x' :: h1 :: h2 :: cs) = true :: lexStrHex e cs := by
+  have he' : ¬ ('\\' = e) := fun h => he h.symm
+  (conv => lhs; rw [lexStrHex.eq_def])
+  simp [he', hd1, hd2, validScalar_lt (d1 * 16 + d2) (by omega)]
+
+theorem lexStrHex_u_none (e : Char) (he : e ≠ '\\') (cs1 : List Char) (hx : uExpected cs1 = none) :
+    lexStrHex e ('\\' :: 'u' :: cs1) =
+      if validScalar (uValue cs1) then false :: lexStrHex e (uAfter cs1) else [] := by
+  have he' : ¬ ('\\' = e) := fun h => he h.symm
+  (conv => lhs; rw [lexStrHex.eq_def])
+  simp only [he', if_false, if_true]
+  simp
+  split
+  · rename_i heq; rw [hx] at heq; cases heq
+  · rfl
+
+theorem lexStrHex_u_some (e : Char) (he : e ≠ '\\') (cs1 : List Char) (close : Char) (cs3 : List Char)
+    (hx : uExpected cs1 = some close) (ha : uAfter cs1 = close :: cs3) :
+    lexStrHex e ('\\' :: 'u' :: cs1) =
+      if validScalar (uValue cs1) then false :: lexStrHex e cs3 else [] := by
+  have he' : ¬ ('\\' = e) := fun h => he h.symm
+  (conv => lhs; rw [lexStrHex.eq_def])
+  simp only [he', if_false, if_true]
+  simp
+  split
+  · rename_i cl heq
+    rw [hx] at heq
+    cases heq
+    split
+    · rename_i h0; rw [ha] at h0; cases h0
+    · rename_i c2 cs3' h0
+      rw [ha] at h0
+      cases h0
+      simp
+  · rename_i heq; rw [hx] at heq; cases heq
+
+/-- on a well-formed body the flags mark exactly the `\xHH` items -/
+theorem lexStrHex_body (e : Char) (he1 : e ≠ '\\') (its : List StrItem)
+    (hok : BodyOK e its) (vs : List Nat) (hden : denoteBody its = some vs) (rest : List Char) :
+    lexStrHex e (renderBody its ++ e :: rest) = its.map StrItem.isHex := by
+  induction its generalizing vs with
+  | nil => simp [renderBody, lexStrHex_delim]
+  | cons it its ih =>
+    obtain ⟨hit, hrest, hnext⟩ := hok
+    unfold denoteBody at hden
+    split at hden
+    · rename_i v vs' hv hvs
+      have ih' := ih hrest vs' hvs
+      have hrb : renderBody (it :: its) ++ e :: rest = it.render ++ (renderBody its ++ e :: rest) := by
+        simp [renderBody]
+      rw [hrb]
+      cases it with
+      | plain c =>
+        simp only [StrItem.render, List.cons_append, List.nil_append]
+        rw [lexStrHex_plain e c _ hit.1 hit.2, ih']; rfl
+      | nl =>
+        simp only [StrItem.render, List.cons_append, List.nil_append]
+        rw [lexStrHex_esc e he1 _ (by simp), ih']; rfl
+      | cr =>
+        simp only [StrItem.render, List.cons_append, List.nil_append]
+        rw [lexStrHex_esc e he1 _ (by simp), ih']; rfl
+      | tab =>
+        simp only [StrItem.render, List.cons_append, List.nil_append]
+        rw [lexStrHex_esc e he1 _ (by simp), ih']; rfl
+      | nul =>
+        simp only [StrItem.render, List.cons_append, List.nil_append]
+        rw [lexStrHex_esc e he1 _ (by simp), ih']; rfl
+      | backslash =>
+        simp only [StrItem.render, List.cons_append, List.nil_append]
+        rw [lexStrHex_esc e he1 _ (by simp), ih']; rfl
+      | squote =>
+        simp only [StrItem.render, List.cons_append, List.nil_append]
+        rw [lexStrHex_esc e he1 _ (by simp), ih']; rfl
+      | dquote =>
+        simp only [StrItem.render, List.cons_append, List.nil_append]
+        rw [lexStrHex_esc e he1 _ (by simp), ih']; rfl
+      | hex d1 d2 =>
+        simp only [StrItem.render, List.cons_append, List.nil_append]
+        rw [lexStrHex_esc_x e he1 d1.char d2.char d1.val d2.val (toDigit_hexChar d1 hit.1) (toDigit_hexChar d2 hit.2)
+          hit.1 hit.2, ih']; rfl
+      | uni b ds =>
+        simp only [StrItem.denote] at hv
+        split at hv
+        · rename_i hsc
+          have hvalid : validScalar (ofDigits 16 (ds.map HexDigit.val)) = true := hsc
+          have hmin := min_eq_of_valid _ hvalid
+          cases b with
+          | none =>
+            have hstop : Stops isHexDigit (renderBody its ++ e :: rest) := by
+              intro c hc
+              rw [headOpt_append_cons] at hc
+              exact hnext ds rfl c hc
+            obtain ⟨h1, h2, h3⟩ := u_parts_nobracket ds hit.1 (hit.2 rfl) _ hstop
+            simp only [StrItem.render, Bracket.opening, Bracket.closing, List.cons_append, List.nil_append,
+              List.append_nil]
+            rw [lexStrHex_u_none e he1 _ h1, h2, h3, hmin, if_pos hvalid, ih']; rfl
+          | brace =>
+            obtain ⟨h1, h2, h3⟩ := u_parts_bracket '{' '}' (fun _ => rfl) (by decide) ds hit.1
+              (renderBody its ++ e :: rest)
+            simp only [StrItem.render, Bracket.opening, Bracket.closing, List.cons_append, List.nil_append,
+              List.append_assoc]
+            rw [lexStrHex_u_some e he1 _ '}' _ h1 h3, h2, hmin, if_pos hvalid, ih']; rfl
+          | paren =>
+            obtain ⟨h1, h2, h3⟩ := u_parts_bracket '(' ')' (fun _ => rfl) (by decide) ds hit.1
+              (renderBody its ++ e :: rest)
+            simp only [StrItem.render, Bracket.opening, Bracket.closing, List.cons_append, List.nil_append,
+              List.append_assoc]
+            rw [lexStrHex_u_some e he1 _ ')' _ h1 h3, h2, hmin, if_pos hvalid, ih']; rfl
+          | square =>
+            obtain ⟨h1, h2, h3⟩ := u_parts_bracket '[' ']' (fun _ => rfl) (by decide) ds hit.1
+              (renderBody its ++ e :: rest)
+            simp only [StrItem.render, Bracket.opening, Bracket.closing, List.cons_append, List.nil_append,
+              List.append_assoc]
+            rw [lexStrHex_u_some e he1 _ ']' _ h1 h3, h2, hmin, if_pos hvalid, ih']; rfl
+          | angle =>
+            obtain ⟨h1, h2, h3⟩ := u_parts_bracket '<' '>' (fun _ => rfl) (by decide) ds hit.1
+              (renderBody its ++ e :: rest)
+            simp only [StrItem.render, Bracket.opening, Bracket.closing, List.cons_append, List.nil_append,
+              List.append_assoc]
+            rw [lexStrHex_u_some e he1 _ '>' _ h1 h3, h2, hmin, if_pos hvalid, ih']; rfl
+        · simp at hv
+    · simp at hden
+
 theorem lexStep_squote (cs : List Char) : lexStep '\'' cs =
     ⟨(lexStr '\'' cs).pre ++ [.stringLit (lexStr '\'' cs).acc], (lexStr '\'' cs).rest, false⟩ := rfl
 theorem lexStep_dquote (cs : List Char) : lexStep '"' cs =
@@ -357,20 +499,21 @@ theorem string_escape_exact (e : Char) (he : e = '\'' ∨ e = '"') (its : List S
     · rw [lexStep_dquote, hb]; rfl
   rw [List.cons_append, lex_of_step _ _ _ _ hstep]; rfl
 
-/-- bytes literals `B"…"`: the token holds the UTF-8 encoding of the decoded characters -/
+/-- bytes literals `B"…"`: the token holds, for every decoded character, the byte `HH` if it was
+written `\xHH` and its UTF-8 encoding otherwise -/
 theorem bytes_literal_token (e : Char) (he : e = '\'' ∨ e = '"') (its : List StrItem) (hok : BodyOK e its)
     (vs : List Nat) (hden : denoteBody its = some vs) (rest : List Char) :
     lex ('B' :: e :: renderBody its ++ e :: rest) =
-      .bytesLit ((vs.map Char.ofNat).flatMap utf8Encode) :: lex rest := by
+      .bytesLit (bytesOf (vs.map Char.ofNat) (its.map StrItem.isHex)) :: lex rest := by
   have he1 : e ≠ '\\' := by rcases he with rfl | rfl <;> decide
   have hb := lexStr_body e he1 its hok vs hden rest
   have hstep : lexStep 'B' (e :: (renderBody its ++ e :: rest)) =
-      ⟨[.bytesLit ((vs.map Char.ofNat).flatMap utf8Encode)], rest, false⟩ := by
+      ⟨[.bytesLit (bytesOf (vs.map Char.ofNat) (its.map StrItem.isHex))], rest, false⟩ := by
     rw [lexStep_prefix 'B' (Or.inl rfl) e he]
     unfold lexIdentTail
     rw [if_pos rfl]
     simp only
-    rw [if_pos he, hb]; rfl
+    rw [if_pos he, hb, lexStrHex_body e he1 its hok vs hden rest]; rfl
   simp only [List.cons_append]
   rw [lex_of_step _ _ _ _ hstep]; rfl
 
@@ -557,7 +700,7 @@ theorem format_literal_exact (e : Char) (he : e = '\'' ∨ e = '"') (its : List 
     fmtScan_plain _ hnb, fmtLiteralOnly_map]
   rfl
 
-/-! ## 6. Bytes literals: exact below `\x80`; `\x80`..`\xff` are the known defect F23 -/
+/-! ## 6. Bytes literals: `\xHH` is the byte `HH`, everything else UTF-8 (F23 fixed) -/
 
 theorem utf8Encode_ofNat (v : Nat) (h : v.isValidChar) : utf8Encode (Char.ofNat v) = utf8 v := by
   unfold utf8Encode utf8
@@ -618,38 +761,78 @@ theorem bytes_of_body (e : Char) (its : List StrItem) (hok : BodyOK e its) (hlow
     · simp at hden
 
 
-/-- **`bytes_literal_exact_partial`**: a bytes literal without `\xHH` escapes ≥ `\x80` denotes exactly
-the bytes its items spell.  (Missing for the full statement: hex escapes ≥ 0x80, see below.) -/
-theorem bytes_literal_exact_partial (e : Char) (he : e = '\'' ∨ e = '"') (its : List StrItem)
-    (hok : BodyOK e its) (hlow : LowHex its) (vs : List Nat) (hden : denoteBody its = some vs) :
-    ∃ bs, denoteBodyBytes its = some bs ∧ parseEvalLit ('B' :: e :: renderBody its ++ [e]) = .ok (.bytes bs) := by
-  refine ⟨_, bytes_of_body e its hok hlow vs hden, ?_⟩
-  have h := bytes_literal_token e he its hok vs hden []
-  rw [lex_nil] at h
-  unfold parseEvalLit
-  simp only [h]
-  have : ([Token.bytesLit ((vs.map Char.ofNat).flatMap utf8Encode)].any Token.isPanic) = false := rfl
-  simp only [this, Bool.false_eq_true, if_false, stripComments_single (.bytesLit _) (by simp), atomLit, evalLit]
+/-- the bytes the lexer builds are the bytes the items spell — for every well-formed body, hex
+escapes ≥ `\x80` included (after the fix of F23) -/
+theorem bytes_of_body_full (e : Char) (its : List StrItem) (hok : BodyOK e its)
+    (vs : List Nat) (hden : denoteBody its = some vs) :
+    denoteBodyBytes its = some (bytesOf (vs.map Char.ofNat) (its.map StrItem.isHex)) := by
+  induction its generalizing vs with
+  | nil => simp [denoteBody] at hden; subst hden; rfl
+  | cons it its ih =>
+    obtain ⟨hit, hrest, _⟩ := hok
+    unfold denoteBody at hden
+    split at hden
+    · rename_i v vs' hv hvs
+      simp at hden; subst hden
+      have hvalid := denote_valid e it hit v hv
+      have ih' := ih hrest vs' hvs
+      unfold denoteBodyBytes
+      rw [ih']
+      cases it with
+      | hex d1 d2 =>
+        simp [StrItem.denote] at hv; subst hv
+        have h1 := hit.1; have h2 := hit.2
+        have hlt : 16 * d1.val + d2.val < 256 := by omega
+        simp [StrItem.denoteBytes, StrItem.isHex, bytesOf, toNat_ofNat _ hvalid, Nat.mod_eq_of_lt hlt]
+      | _ => simp [StrItem.denoteBytes, StrItem.isHex, bytesOf, hv, utf8Encode_ofNat v hvalid]
+    · simp at hden
 
 /-- the full-strength statement for bytes literals (what the property text asks for) -/
 def bytes_literal_exact_statement : Prop :=
   ∀ (e : Char), (e = '\'' ∨ e = '"') → ∀ (its : List StrItem), BodyOK e its → ∀ bs, denoteBodyBytes its = some bs →
     parseEvalLit ('B' :: e :: renderBody its ++ [e]) = .ok (.bytes bs)
 
-/-- **refutation (F23)**: `B"\xff"` denotes `[195, 191]` in the code (model = code, see the
-correspondence run), while its escape spells the single byte `255` -/
-theorem bytes_hex_escape_refuted : ¬ bytes_literal_exact_statement := by
-  intro h
-  have hok : BodyOK '"' [.hex ⟨15, false⟩ ⟨15, false⟩] := by simp [BodyOK, ItemOK]
-  have h1 := h '"' (Or.inr rfl) [.hex ⟨15, false⟩ ⟨15, false⟩] hok [255] (by decide)
-  have h2 := bytes_literal_token '"' (Or.inr rfl) [.hex ⟨15, false⟩ ⟨15, false⟩] hok [255] (by decide) []
-  rw [lex_nil] at h2
-  unfold parseEvalLit at h1
-  simp only [h2] at h1
-  have : ([Token.bytesLit (([255].map Char.ofNat).flatMap utf8Encode)].any Token.isPanic) = false := rfl
-  simp only [this, Bool.false_eq_true, if_false, stripComments_single (.bytesLit _) (by simp), atomLit, evalLit] at h1
-  revert h1
-  decide
+theorem denoteBody_of_bytes (its : List StrItem) (bs : List Nat) (h : denoteBodyBytes its = some bs) :
+    ∃ vs, denoteBody its = some vs := by
+  induction its generalizing bs with
+  | nil => exact ⟨[], rfl⟩
+  | cons it its ih =>
+    unfold denoteBodyBytes at h
+    split at h
+    · rename_i b bs' hb hbs
+      obtain ⟨vs', hvs'⟩ := ih bs' hbs
+      have : ∃ v, it.denote = some v := by
+        cases it <;> simp_all [StrItem.denoteBytes, StrItem.denote]
+      obtain ⟨v, hv⟩ := this
+      exact ⟨v :: vs', by simp [denoteBody, hv, hvs']⟩
+    · simp at h
+
+/-- **`bytes_literal_exact`** (F23 fixed): a program that is one bytes literal evaluates to exactly the
+bytes its items spell: `\xHH` is the byte `HH` (also for `HH ≥ 0x80`), every other item the UTF-8
+encoding of the character it spells -/
+theorem bytes_literal_exact : bytes_literal_exact_statement := by
+  intro e he its hok bs hbs
+  obtain ⟨vs, hden⟩ := denoteBody_of_bytes its bs hbs
+  have hb := bytes_of_body_full e its hok vs hden
+  rw [hbs] at hb
+  have hbs' : bs = bytesOf (vs.map Char.ofNat) (its.map StrItem.isHex) := by simpa using hb
+  have h := bytes_literal_token e he its hok vs hden []
+  rw [lex_nil] at h
+  unfold parseEvalLit
+  simp only [h]
+  have : ([Token.bytesLit (bytesOf (vs.map Char.ofNat) (its.map StrItem.isHex))].any Token.isPanic) = false := rfl
+  simp only [this, Bool.false_eq_true, if_false, stripComments_single (.bytesLit _) (by simp), atomLit, evalLit, hbs']
+
+/-- **`bytes_literal_exact_partial`**: a bytes literal without `\xHH` escapes ≥ `\x80` denotes exactly
+the bytes its items spell.  (Kept from before the fix of F23; now a corollary of `bytes_literal_exact`.) -/
+theorem bytes_literal_exact_partial (e : Char) (he : e = '\'' ∨ e = '"') (its : List StrItem)
+    (hok : BodyOK e its) (hlow : LowHex its) (vs : List Nat) (hden : denoteBody its = some vs) :
+    ∃ bs, denoteBodyBytes its = some bs ∧ parseEvalLit ('B' :: e :: renderBody its ++ [e]) = .ok (.bytes bs) :=
+  ⟨_, bytes_of_body e its hok hlow vs hden, bytes_literal_exact e he its hok _ (bytes_of_body e its hok hlow vs hden)⟩
+
+/-- regression (F23): `B"\xff"` is the single byte 255 (it was `[195, 191]`, the UTF-8 of U+00FF) -/
+example : parseEvalLit ['B', '"', '\\', 'x', 'f', 'f', '"'] = .ok (.bytes [255]) :=
+  bytes_literal_exact '"' (Or.inr rfl) [.hex ⟨15, false⟩ ⟨15, false⟩] (by simp [BodyOK, ItemOK]) [255] (by decide)
 
 /-! ## 7. The parser
 
@@ -750,7 +933,8 @@ Grammar (`D` in Lemmas/C15Grammar.lean), over literals, identifiers and `( ) [ ]
 
     Atom    ::= literal | ident | '(' Args ')' | '[' ']' | '[' Args ']'
     Operand ::= Atom | Operand '(' ')' | Operand '(' Args ')' | Operand '[' Chain ']'
-    Chain   ::= Operand | Operand Atom | Operand Atom Operand (Atom Operand)*
+    OpAtom  ::= ident | '(' OpAtom ')'
+    Chain   ::= Operand | Operand Atom | Operand OpAtom Operand (OpAtom Operand)*
     Args    ::= Chain (',' Chain)* [',']
 -/
 
@@ -768,5 +952,9 @@ example : Lang .args [.ident ['f'], .leftParen, .ident ['x'], .comma, .leftBrack
     .rightParen, .leftBracket, .intLit 0, .rightBracket, .ident ['+'], .ident ['y']] :=
   parseTokens_sound 200 _ (by simp [frag_ident, frag_leftParen, frag_comma, frag_leftBracket, frag_intLit,
     frag_rightBracket, frag_rightParen]) (by simp) (by rfl)
+
+/-- the operator position is tight: `a 1 b` (a non-identifier where an operator is expected) is not a
+phrase of the grammar's `Chain` … and indeed the parser model rejects it -/
+example : Parse.parseTokens 200 [.ident ['a'], .intLit 1, .ident ['b']] = .err := by rfl
 
 end Noulith.C15
